@@ -27,6 +27,9 @@ def pick(a, which='first', other=None, flag=False):
     return a if which == 'first' and not flag else (other if other is not None else a * 0)
 def twice(a):
     return a * 2
+def wsum(a, w=0, z=0):
+    # keyword labels that are also column names: wsum(x, w=w) passes the COLUMN w
+    return a + 2 * w + 3 * z
 def slen(a, s):
     # sensitive to every character of a string argument (runs of blanks included)
     return a * 0 + len(s) + 10 * s.count(' ')
@@ -67,7 +70,15 @@ def _tree(rng, depth, numeric=True):
         n = 2 if rng.random() < 0.15 else 1
         return ast.Compare(_tree(rng, depth - 1), [rng.choice(CMPOPS)() for _ in range(n)],
                            [_tree(rng, depth - 1) for _ in range(n)])
-    fn = rng.choice(["add3", "pick", "twice", "tcode", "slen"])
+    fn = rng.choice(["add3", "pick", "twice", "tcode", "slen", "wsum"])
+    if fn == "wsum":
+        kws = []
+        if rng.random() < 0.8:
+            kws.append(ast.keyword("w", rng.choice([ast.Name("w", ast.Load()), ast.Name("z", ast.Load()),
+                                                    ast.BinOp(ast.Name("w", ast.Load()), ast.Mult(), ast.Constant(2))])))
+        if rng.random() < 0.5:
+            kws.append(ast.keyword("z", rng.choice([ast.Name("z", ast.Load()), ast.Name("x", ast.Load())])))
+        return ast.Call(ast.Name("wsum", ast.Load()), [ast.Name(rng.choice(["x", "z"]), ast.Load())], kws)
     if fn == "slen":
         # string literals whose text contains runs of blanks (leading, inner, trailing)
         txt = rng.choice(["a  b", "New   York", "  x", "y  ", " ", "   ", "a b", "ab", "a  b  c"])
@@ -161,13 +172,13 @@ def _formula(c, src=None):
 def _extra():
     ns = {}
     exec(USER, ns)
-    return {k: v for k, v in ns.items() if k in ("add3", "pick", "twice", "tcode", "slen")}
+    return {k: v for k, v in ns.items() if k in ("add3", "pick", "twice", "tcode", "slen", "wsum")}
 
 
 def model_cmd(c):
     import core
     return core.sshow(["c12", _formula(c), dm.frame_sexp(c["frame"]), "drop",
-                       [["add3", ["opaque"]], ["pick", ["opaque"]], ["twice", ["opaque"]], ["tcode", ["opaque"]], ["slen", ["opaque"]]]])
+                       [["add3", ["opaque"]], ["pick", ["opaque"]], ["twice", ["opaque"]], ["tcode", ["opaque"]], ["slen", ["opaque"]], ["wsum", ["opaque"]]]])
 
 
 def impl_obs(c):
@@ -296,8 +307,14 @@ def oracle(c):
         return None
     try:
         d = design_matrices(f, df, extra_namespace=ns)
-    except Exception:
-        return None  # formulae refuses the text: there is no call term (rejections are C01's business)
+    except Exception as e:
+        try:
+            model_description(f)
+        except Exception:
+            return None  # formulae refuses the TEXT: there is no call term (rejections are C01's business)
+        # the text is a call term and Python evaluates it: evaluation must not fail
+        return (f"{tag}{f!r}: Python evaluates the expression, formulae accepts the text but raises "
+                f"{type(e).__name__}: {str(e)[:80]} when evaluating the call term")
     name = list(d.common.terms)[-1]
     got = np.asarray(d.common[name], dtype=float).reshape(len(df), -1)
     if got.shape[1] != 1 or not np.allclose(got[:, 0], want, rtol=1e-9, atol=1e-9):
